@@ -800,8 +800,13 @@ class SourceHandler:
                 self._params.positive_ack_params.ack_counter + 1
                 >= self._params.remote_cfg.positive_ack_timer_expiration_limit
             ):
-                self._declare_fault(ConditionCode.POSITIVE_ACK_LIMIT_REACHED)
-                return
+                if (
+                    self._declare_fault(ConditionCode.POSITIVE_ACK_LIMIT_REACHED)
+                    != FaultHandlerCode.IGNORE_ERROR
+                ):
+                    return
+                # Ignored fault: the transaction continues with another EOF PDU and timer run, so
+                # that the fault is not declared again on every call.
             self._params.positive_ack_params.ack_timer.reset()
             self._params.positive_ack_params.ack_counter += 1
             # Re-send the same EOF PDU: for an EOF (cancel) PDU, only the progress is covered.
@@ -820,7 +825,13 @@ class SourceHandler:
             or packet_holder.pdu_directive_type != DirectiveType.FINISHED_PDU
         ):
             if self._params.check_timer is not None and self._params.check_timer.timed_out():
-                self._declare_fault(ConditionCode.CHECK_LIMIT_REACHED)
+                if (
+                    self._declare_fault(ConditionCode.CHECK_LIMIT_REACHED)
+                    == FaultHandlerCode.IGNORE_ERROR
+                ):
+                    # Ignored fault: keep waiting for another interval instead of declaring the
+                    # fault again on every call.
+                    self._params.check_timer.reset()
             return
         finished_pdu = packet_holder.to_finished_pdu()
         self._params.finished_params = finished_pdu.finished_params
@@ -974,7 +985,7 @@ class SourceHandler:
             self.seq_num_provider.max_bit_width // 8, next_seq_num
         )
 
-    def _declare_fault(self, cond: ConditionCode) -> None:
+    def _declare_fault(self, cond: ConditionCode) -> FaultHandlerCode | None:
         fh = self.cfg.default_fault_handlers.get_fault_handler(cond)
         # Cache those for later, because a notice of cancellation might lead to a reset of the
         # handler.
@@ -983,12 +994,13 @@ class SourceHandler:
         assert transaction_id is not None
         if fh == FaultHandlerCode.NOTICE_OF_CANCELLATION:
             if not self._notice_of_cancellation(cond):
-                return
+                return fh
         elif fh == FaultHandlerCode.NOTICE_OF_SUSPENSION:
             self._notice_of_suspension()
         elif fh == FaultHandlerCode.ABANDON_TRANSACTION:
             self._abandon_transaction()
         self.cfg.default_fault_handlers.report_fault(transaction_id, cond, progress)
+        return fh
 
     def _notice_of_cancellation(self, condition_code: ConditionCode) -> bool:
         """Returns whether the fault declaration handler can return prematurely."""
